@@ -242,6 +242,29 @@ def ampsf(rng, fails, stats, n):
                 # CF8: the scale factor must be undone on encoding as well (exact up to float32 rounding of v*sf/sf)
                 fails.append({'kind': 'ampsf', 'msg': f'AmpSF encode(decode(x)) differs from x beyond float32 rounding for float samples, vectors [{a}:{b}:{st}]', 'case': case})
                 break
+        # re-installing a scaling between inverse calls (block-wise CPHD production: write_pvp_array again with the final AmpSF): the object must
+        # behave as a fresh function with the second array - encode is a function of the array installed NOW, not of an earlier one
+        sf2 = numpy.array([v * rng.choice([0.25, 0.5, 2.0, 4.0]) for v in sf], dtype='float32')
+        sub2 = (slice(0, nv, 1), slice(0, ns, 1))
+        z2 = (sf2[:, None].astype('float64') * (raw[..., 0].astype('float64') + 1j * raw[..., 1].astype('float64'))).astype('complex64')
+        case = {'dtype': dt, 'nv': nv, 'ns': ns, 'sf': [float(v) for v in sf], 'sf2': [float(v) for v in sf2]}
+        try:
+            ff.set_amplitude_scaling(sf2)
+            again = ff.inverse(z2, sub2)
+            fresh = AmpScalingFunction(dt, amplitude_scaling=sf2)
+            fresh.set_raw_shape((nv, ns, 2))
+            fresh.set_formatted_shape((nv, ns))
+            ref = fresh.inverse(z2, sub2)
+        except Exception as e:
+            fails.append({'kind': 'ampsf-reinstall', 'msg': f'AmpSF encode after set_amplitude_scaling with a second array raised {type(e).__name__}: {e}', 'case': case})
+            continue
+        stats['ampsf_reinstall_cases'] = stats.get('ampsf_reinstall_cases', 0) + 1
+        if numpy.shape(again) != numpy.shape(ref) or not numpy.array_equal(again, ref):
+            fails.append({'kind': 'ampsf-reinstall', 'msg': 'AmpScalingFunction.inverse after set_amplitude_scaling(second array) differs from a fresh function with that '
+                                                            f'array (dtype {dt}): up to {float(numpy.abs(numpy.asarray(again, dtype="float64") - numpy.asarray(ref, dtype="float64")).max()):g} '
+                                                            'raw steps - the encoder still uses the scaling installed before', 'case': case})
+        elif numpy.dtype(dt).kind == 'i' and not numpy.array_equal(again, raw):
+            fails.append({'kind': 'ampsf-reinstall', 'msg': f'AmpSF encode with the second array: stored integers are not round(value / AmpSF) (dtype {dt})', 'case': case})
 
 
 # ----------------------------------------------------------------------------------------------------------------------
